@@ -120,6 +120,7 @@ def ranking_info(b, head, tail):
     for test_bb, ctr, kind in tests:
         decs = set()
         dec_by = set()
+        dec_amt = {}
         others = []
         init = None
         for i, blk in enumerate(b.blocks):
@@ -143,6 +144,11 @@ def ranking_info(b, head, tail):
                                 dec_by.add(_const_of(s2['r']['r']))
                 if i in loop:
                     (decs.add(i) if is_dec else others.append(i))
+                    if is_dec:
+                        amt = _const_of(rv['r']) if rv['k'] == 'bin' else None
+                        if amt is None:
+                            amt = max(dec_by)
+                        dec_amt[i] = dec_amt.get(i, 0) + amt
                 else:
                     if rv['k'] == 'use' and _const_of(rv['op']) is not None and b.dominates(i, head):
                         init = _const_of(rv['op'])
@@ -194,6 +200,31 @@ def ranking_info(b, head, tail):
         if (tail in reach and tail not in decs) or (head == tail and head not in decs and not decs):
             last_why = 'a path through the loop body reaches the back-edge without decrementing _%d' % ctr
             continue
+        # an unsigned counter must not be taken below zero: it would wrap to a huge value (release) or panic (debug). Once the
+        # test `ctr > k` has passed the counter is at least k + 1, so one trip round the loop may take at most k + 1 off it.
+        cty = b.crate.types[b.locals[ctr]['ty']] if ctr < len(b.locals) else {}
+        if (kind[0] == 'gt' and cty.get('k') == 'uint') or kind[0] == 'ne0':
+            best = {}
+
+            def longest(x, seen):
+                if x in best:
+                    return best[x]
+                tot = 0
+                if x != tail:
+                    nxt = [y for y in b.succs(x) if y in loop and y != head and y not in seen]
+                    tot = max([longest(y, seen | {y}) for y in nxt] or [0])
+                best[x] = dec_amt.get(x, 0) + tot
+                return best[x]
+            worst = longest(head, {head})
+            if kind[0] == 'ne0' and worst != 1:
+                last_why = ('loop runs while _%d != 0 but one trip round it can take %d off the counter: it steps over zero and '
+                            'the loop does not end' % (ctr, worst))
+                continue
+            if kind[0] == 'gt' and worst > kind[1] + 1:
+                last_why = ('unsigned counter _%d can be decremented by %d on one trip round the loop although the exit test only '
+                            'guarantees it is at least %d: it steps over zero and wraps (the loop then runs ~2^%d more times) or '
+                            'panics on overflow' % (ctr, worst, kind[1] + 1, cty.get('bits', 32)))
+                continue
         desc = 'counter _%d starts at %d, the loop is left unless %s (tested at %s on every iteration), decremented by %s at %s on every path to the back-edge' % (
             ctr, init, ('_%d > %d' % (ctr, kind[1])) if kind[0] == 'gt' else ('_%d != 0' % ctr), b.where(test_bb), sorted(dec_by),
             sorted(b.where(i) for i in decs))
